@@ -447,6 +447,61 @@ func RunC15(r *core.Run) {
 		w.Nontrivial(core.HashBytes(a) ^ core.HashBytes(b)<<1 ^ uint64(f)<<56)
 		w.Inc("tel_pairs_judged")
 	})
+	// parameter / header sections whose lengths add up to 2^16 (and neighbours): a one-sided
+	// user= parameter must still make the URIs different, a re-cased copy must still be equal
+	hugePairs := [][2]int{{32768, 32768}, {32767, 32769}, {40000, 25536}, {65000, 536}, {65535 - 8, 9}, {32768, 32767}, {20000, 45536}}
+	st := r.Stage("huge-sections", int64(len(hugePairs))*2, func(w *core.Worker, idx int64) {
+		hp := hugePairs[idx/2]
+		hdrs := idx%2 == 1
+		mk := func(n int, oneSided bool, upper bool) []byte {
+			sec := ""
+			if oneSided && !hdrs {
+				sec = "user=phone;"
+			} else if oneSided {
+				sec = "extra=1&"
+			}
+			sec += "p="
+			fill := byte('a')
+			if upper {
+				fill = 'A'
+			}
+			b := []byte("sip:h")
+			if hdrs {
+				b = append(b, '?')
+			} else {
+				b = append(b, ';')
+			}
+			b = append(b, sec...)
+			for len(sec) < n {
+				b = append(b, fill)
+				n--
+			}
+			return b
+		}
+		a, b2, ar := mk(hp[0], true, false), mk(hp[1], false, false), mk(hp[0], true, true)
+		diff, same := rawCmp(a, b2, 0), rawCmp(a, ar, 0)
+		w.Eval(2)
+		if diff.pan != "" || same.pan != "" || diff.err != 0 || same.err != 0 {
+			w.Inc("huge_sections_not_accepted")
+			return
+		}
+		what := ""
+		if diff.eq && !hdrs { // (that a one-sided header makes URIs different is not among the stated laws)
+			what = fmt.Sprintf("a URI with a %d-byte parameter section that has a one-sided user= compares EQUAL to one with a %d-byte section without it", hp[0], hp[1])
+		} else if !same.eq {
+			what = fmt.Sprintf("a URI with a %d-byte section and its re-cased copy compare different", hp[0])
+		}
+		if what != "" {
+			w.Fail("huge-sections", func() *core.Violation {
+				return core.V(what, a[:64], map[string]any{"section_lengths": hp, "headers": hdrs})
+			})
+			return
+		}
+		w.NontrivialEnum()
+		w.Inc("huge_pairs_judged")
+	})
+	st.Exhaustive = true
+	st.Space = "7 pairs of section lengths around a sum of 65536, for parameters and for headers"
 	r.Require("C15 tel: pairs judged", r.Counter("tel_pairs_judged"), 1000)
 	r.Require("C15 equal pairs", r.Counter("equal_pairs"), 1000)
 	r.Require("C15 different pairs", r.Counter("different_pairs"), 1000)
